@@ -38,9 +38,18 @@ pub fn run(out_dir: &Path) -> Value {
     let fixture_dir = Path::new(env!("CARGO_MANIFEST_DIR")).join("fixtures/emb");
     copy_tree(&fixture_dir, &tmp.join("root"));
     let phys: VfsPath = PhysicalFS::new(tmp.join("root")).into();
-    let emb: VfsPath = EmbeddedFS::<Fixture>::new().into();
     let mut out = TraceOut::new(out_dir, "emb");
     let truth = observe(&phys, &universe, &cx, 1);
+    // (a constructor that panics on the fixture's names is data about the code under test, not a tool error)
+    let emb: VfsPath = match guard(|| EmbeddedFS::<Fixture>::new()) {
+        Ok(fs) => fs.into(),
+        Err(()) => {
+            out.begin(&json!({"ev":"init","cfg":"emb","kind":"emb","sup":[],"ro":true,"names":"fixture","b":1,"universe":universe,"obs":truth,"popfail":["EmbeddedFS::new -> panic"]}));
+            out.finish();
+            let _ = std::fs::remove_dir_all(&tmp);
+            return json!({"cfg":"emb","mode":"embedded","names":"fixture","b":1,"events":out.total_events,"segments":out.segments,"edges_run":0,"distinct_state_ops":0,"universe_paths":universe.len()});
+        }
+    };
     out.begin(&json!({"ev":"init","cfg":"phys(fixture)","kind":"phys","sup":["mo","ac"],"ro":false,"names":"fixture","b":1,"universe":universe,"obs":truth}));
     let mut n = 0u64;
     let ops = ["create_dir", "create_file", "append_file", "remove_file", "remove_dir", "create_dir_all", "remove_dir_all", "set_time"];
